@@ -165,6 +165,9 @@ TYPES = {
 }
 
 TYPES['union_tag_dict'] = t.Union[TYPES['tag_int'], t.Dict[str, int]]
+# a tagged union as a member of another union keeps its own layout
+TYPES['opt_tag_ext'] = t.Optional[TYPES['tag_ext']]
+TYPES['union_tag_adj'] = t.Union[int, TYPES['tag_adj'], None]
 
 # converter instances that no plain type expression produces (python constructors / raising constructors)
 CONV_ONLY = {
@@ -190,14 +193,15 @@ VOCAB = {
     'pal': ('a_b', 'aB', 'ab'), 'range': ('start', 'end', 'n'), 'pn': ('p', 'q', 'zz'), 'pi': ('x', 'n', 'scale'),
     'tag_int': ('t', 'a', 'zz'), 'tag_ext': ('x', 'y', 'zz'), 'tag_adj': ('t', 'c', 'zz'),
     'dict_si': ('a', 'b', ''), 'counter': ('a', 'b', ''), 'picky': ('a', 'b', ''), 'union_tag_dict': ('t', 'a', 'zz'),
+    'opt_tag_ext': ('x', 'y', 'zz'), 'union_tag_adj': ('t', 'c', 'zz'),
 }
 
 # which shape group can reach acceptance (default A) / rejection (default A); None = not in the generic domain
 ACC = {'tuple_fix': 'B', 'tuple_lit': 'B', 'range': None, 'tag_adj': None, 'tag_ext': None, 'struct': 'C', 'pn': None,
-       'pt': 'A', 'cond_set': 'B', 'tuple_struct': None}
+       'pt': 'A', 'cond_set': 'B', 'tuple_struct': None, 'opt_tag_ext': 'A', 'union_tag_adj': 'A'}
 REJ = {'any': None}
 MAPPISH = {'any', 'dict_si', 'dict_if', 'counter', 'ddict', 'struct', 'union', 'p1', 'p2', 'ph', 'pal', 'range', 'dict_p2',
-           'tag_int', 'tag_ext', 'tag_adj', 'vol', 'picky', 'pn', 'pi', 'union_tag_dict', 'opt_vol'}
+           'tag_int', 'tag_ext', 'tag_adj', 'vol', 'picky', 'pn', 'pi', 'union_tag_dict', 'opt_vol', 'opt_tag_ext', 'union_tag_adj'}
 SEQISH = {'any', 'list_int', 'seq_any', 'set_int', 'tuple_var', 'tuple_fix', 'tuple_lit', 'union', 'opt_list', 'vol',
           'cond_len', 'cond_nested', 'nested', 'nested_ragged', 'p2', 'ph', 'range', 'list_p1', 'union_ctor', 'lit', 'str',
           'pt', 'pi', 'cond_set', 'opt_vol', 'tuple_struct'}
@@ -505,6 +509,14 @@ TD = {
                 "1 <= tk <= 8 and 0 <= bk <= 2 and 0 <= ka <= 5 and 0 <= shape <= 4 and "
                 "((shape == 0 and tk <= 2) or (bk == 0 and not ha and not he))",
                 "b_tag_adj(tk, bk, ha, ka, ia, sa, he, shape)", (0, -1)),
+    'opt_tag_ext': ('opt_tag_ext', "tk: int, bk: int, ha: bool, ka: int, ia: int, sa: str, he: bool, n: int",
+                    "1 <= tk <= 8 and tk != 6 and tk != 7 and 0 <= bk <= 2 and 0 <= ka <= 5 and 0 <= n <= 2 and "
+                    "((n == 1 and tk <= 2) or (bk == 0 and not ha and not he))",
+                    "b_tag_ext(tk, bk, ha, ka, ia, sa, he, n)", (0, -1)),
+    'union_tag_adj': ('union_tag_adj', "tk: int, bk: int, ha: bool, ka: int, ia: int, sa: str, he: bool, shape: int",
+                      "1 <= tk <= 8 and 0 <= bk <= 2 and 0 <= ka <= 5 and 0 <= shape <= 4 and "
+                      "((shape == 0 and tk <= 2) or (bk == 0 and not ha and not he))",
+                      "b_tag_adj(tk, bk, ha, ka, ia, sa, he, shape)", (0, -1)),
     'range': ('range', "hs: bool, he: bool, e: int, nsel: int, ssel: int",
               "0 <= e <= 1 and 0 <= nsel <= 7 and 0 <= ssel <= 4", "b_range(hs, he, e, nsel, ssel)", (0, -1)),
     'range_seq': ('range', "n: int, e: int, nsel: int, tup: bool",
